@@ -26,4 +26,8 @@ def fz(target, quick, thorough, **kw):
 
 
 for _f in sorted(glob.glob(os.path.join(os.path.dirname(__file__), "props", "c*.py"))):
-    importlib.import_module("vv.props." + os.path.basename(_f)[:-3])
+    try:
+        importlib.import_module("vv.props." + os.path.basename(_f)[:-3])
+    except Exception as _e:  # a broken props file must not take the other properties down
+        import sys
+        print(f"WARNING: cannot load {_f}: {_e!r}", file=sys.stderr)
